@@ -1,4 +1,5 @@
 import Cvise.Proofs.DriverAccept
+import Cvise.Proofs.DriverLimits
 /-!
 # C16 — run limits are honoured (decision logic in the L1/L2 model)
 -/
@@ -25,5 +26,13 @@ theorem limit_not_before (n succ : Nat) (hs : succ < n) : limitHit (some n) succ
 /-- boundary value 0 (finding F9): Python truthiness makes a limit of 0 mean "no limit" -/
 theorem limit_zero_is_unlimited (succ : Nat) : limitHit (some 0) succ = false := by
   unfold limitHit; simp
+
+/-- **a pass run accepts at most `--skip-after-n-transforms` (and at most its own `max-transforms`) changes per test
+    case**: whatever the schedule, the faults and the pass, `new` + all rounds on one file append at most `n` accepted steps
+    to the log, for every limit `n ≥ 1` in force (for `n = 0` see `limit_zero_is_unlimited`, finding F9) -/
+theorem accepts_at_most_limit [Inhabited σ] [Inhabited C] (cfg : Cfg) (W : World C) (dn : Sched) (P : PassI C σ)
+    (k fuel rid : Nat) (x : St C) (before : C) (n : Nat) (hn : 1 ≤ n) (hl : cfg.skipN = some n ∨ P.maxT = some n) :
+    (commits (LRes.st' (newLoop cfg W dn P k fuel rid x before)).side.log).length ≤ (commits x.side.log).length + n :=
+  newLoop_commits_le cfg W dn P k fuel rid x before n hn hl
 
 end Cvise.C16
